@@ -59,6 +59,17 @@ CHECKS = [
           "use_argvals_stand, user weight) vs the exact Q model (np.sqrt/np.std enter as oracle values re-checked in Q); monitors of the promised "
           "effects on basis-expansion, multivariate and irregular data (both encodings).",
   "note": STD_NOTE + " Basis / multivariate / irregular variants are monitored on the implementation, not modelled."},
+ {"id": "C18",
+  "text": "Theorems: Cox-de Boor B-splines of ANY degree on ANY strictly increasing knot sequence are non-negative, vanish outside "
+          "[t_j, t_{j+p+1}), have at most p+1 non-zero members at a point and sum to one on [t_{lo+p}, t_{lo+n}] INCLUDING the right end point "
+          "(induction on the degree, telescoping); instantiated to the code's equally spaced extended knots for every domain a<b, n_segments>=1, "
+          "degree>=1 (sum = 1 on the closed domain [domain_min, domain_max]); the polymorphic executable model equals that recursion; Legendre "
+          "P_k(1)=1; dropping the intercept removes exactly the first function; 2-D bases are row-major tensor products (index formula). "
+          "Tie: _basis_bsplines for degree 1..5 x n_functions vs the exact Q model (this is what establishes truncated-power = Cox-de Boor), "
+          "_basis_legendre vs Bonnet, Basis(...) intercept / normalisation / all 16 2-D family combinations vs the model tensor; monitors for "
+          "Fourier / Wiener / Legendre orthogonality by quadrature and closed forms.",
+  "note": STD_NOTE + " Partial: orthonormality of Fourier/Wiener and orthogonality of Legendre are monitored by quadrature, not proved; "
+          "truncated-power = Cox-de Boor is established by correspondence only."},
 ]
 
 import glob, json, os
